@@ -386,7 +386,37 @@ def r20_7(ctx):
     ctx.floor('R20.7', 'publication sites in compile.py', n, 1)
 
 
+
+def r20_8(ctx):
+    """One build per scratch directory: the extension build is not re-run in an exception handler (a retry).  distutils starts with a
+    timestamp check; if the first attempt died after the linker wrote part of its output, the retry finds an up-to-date file, skips the
+    build and returns normally -- the half-written .so is then published atomically under its final name."""
+    f = ctx.prog.maybe_func('pyiga.compile._compile_cython_module_nocache')
+    if f is None:
+        ctx.undecided('R20.8', 'pyiga.compile._compile_cython_module_nocache', 'definition', None, 'not found')
+        return
+    BUILD = ('run', 'build_extensions', 'build_extension')
+    calls = [c for c in ast.walk(f.node) if isinstance(c, ast.Call) and isinstance(c.func, ast.Attribute) and c.func.attr in BUILD
+             and 'build' in src(c.func.value)]
+    if not calls:
+        ctx.undecided('R20.8', f.qual, 'build call', f.node, 'not recognised')
+        return
+    handlers = [h for t in ast.walk(f.node) if isinstance(t, ast.Try) for h in t.handlers]
+    for c in calls:
+        inside = [h for h in handlers if any(x is c for x in ast.walk(h))]
+        looped = guards.in_loop(c, f.node) is not None
+        if inside:
+            ctx.violated('R20.8', f.qual, '%s in `except %s`' % (src(c)[:60], src(inside[0].type) if inside[0].type is not None else ''), c,
+                         'the build is repeated in the SAME scratch directory after a failed attempt: a partially written output of the killed '
+                         'linker is newer than its sources, the retry skips it as up to date and the truncated .so is published')
+        elif looped:
+            ctx.undecided('R20.8', f.qual, src(c)[:60] + ' inside a loop', c, 'a repeated build needs a fresh scratch directory per attempt')
+        else:
+            ctx.met('R20.8', f.qual, src(c)[:60], c, 'a single build attempt per scratch directory')
+
+
 def run(ctx):
+    r20_8(ctx)
     r20(ctx)
     r20_6(ctx)
     r20_7(ctx)
